@@ -18,7 +18,7 @@ EXPLANATION = (
     "non-literal double; positive controls: the real readers do call atof); R12.5 no writer cuts a name (a %s conversion with a "
     "precision only for strings bounded by it); R12.6 every formatted record fits the buffer it is printed into (the maximal width of "
     "its conversions, with %f bounded only under a dominating magnitude test); R12.7 the writers are total over row / bound kinds (no "
-    "arm of a split on infinite sides throws). NOT decided: equivalence of the re-read LP, the dual writer, MPS normalisations.")
+    "arm of a split on infinite sides throws); R12.8 the zero stripping of the number parser always leaves one digit. NOT decided: equivalence of the re-read LP, the dual writer, MPS normalisations.")
 
 REAL = 'spxlpbase_real.hpp'
 RAT = 'spxlpbase_rational.hpp'
@@ -63,6 +63,7 @@ def run(fb, rep, tier):
     exact(fb, rep)
     truncation(fb, rep)
     totality(fb, rep)
+    digit_kept(fb, rep)
 
 
 def one_in(fb, base, short, inst=None):
@@ -513,3 +514,32 @@ def totality(fb, rep):
                       'the arm `%s` of the split on finite / infinite sides throws: an LP that holds such a row or bound (a free row) cannot be written' % (thr[0][0][:50] if thr else ''))
     if k < 6:
         raise AnalysisBroken('R12.7: only %d splits on infinity found in the writers' % k)
+
+
+def digit_kept(fb, rep):
+    """R12.8: the number parsers strip padding zeros with `s.erase(P, min(.., s.size() - C))`.  At least one digit must survive, i.e. at
+    most size - P - 1 characters may be erased from position P on: C >= P + 1.  (With C = P a literal whose digits are all zero loses
+    every digit and is no number any more.)"""
+    rep.rule('R12.8', 'stripping padding zeros from a numeric literal always leaves one digit: erase(P, min(.., size() - C)) has C >= P + 1', floor=2)
+    from c13 import const_int
+    k = 0
+    for f in fb.funcs.values():
+        if f.short not in ('ratFromString', 'readStringRational') or not f.name.startswith('soplex::'):
+            continue
+        for n in f.nodes:
+            if n.k != 'CXXMemberCallExpr' or n.short != 'erase' or len(n.args()) != 2:
+                continue
+            P = const_int(n.args()[0])
+            cnt = strip(n.args()[1])
+            # the count argument: a min(...) whose one operand is <obj>.size() - C
+            C = None
+            for x in cnt.walk():
+                if x.k == 'BinaryOperator' and x.o == '-' and render(strip(x.kids[0])).endswith('.size()') and render(strip(x.kids[0])).startswith(render(n.obj())):
+                    C = const_int(x.kids[1])
+            if P is None or C is None:
+                continue
+            k += 1
+            rep.check(C >= P + 1, 'R12.8', '%s|erase(%d, .. size() - %d)' % (f.short, P, C), '%s:%d' % (f.file, n.l), 'at most size - %d characters are erased from position %d on' % (C, P),
+                      '%s can erase size() - %d characters from position %d on, i.e. everything behind it: a literal whose digits are all zero (-0.0) loses every digit and is rejected as malformed' % (render(n)[:60], C, P))
+    if k < 2:
+        raise AnalysisBroken('R12.8: the zero-stripping erase calls of the number parser were not found')
